@@ -1,9 +1,10 @@
 \* C10 MC+GEN: seeded random programs of up to 6 ops / depth 3 (module MCRenderIOBig is generated by the check) x every fault plan.
+\* MaxOps/MaxDepth only bound the (unused) grammar enumeration here: TLC evaluates constant definitions eagerly.
 CONSTANTS
   Caps = {2, 3}
   ProgSet <- BigProgs
-  MaxOps = 6
-  MaxDepth = 3
+  MaxOps = 1
+  MaxDepth = 1
   LitSizes = {1, 2, 3, 5}
   ExprSizes = {1, 2, 4}
   LeafSizes = {2, 4}
